@@ -195,6 +195,22 @@ func Enumerate(thorough bool) []Schema {
 			add(WithSupport(Obj{Name: "Root", T: irgen.StructN([]irgen.Field{{Name: "a", Required: true}, {Name: "b", Required: false}}, []Term{a, b})}))
 		}
 	}
+	// nullable containers (required and optional): `[...T] | null`, `{[string]: T} | null`
+	for _, t := range []Term{irgen.Array(irgen.S("string")), irgen.Map(irgen.S("string")), irgen.Array(ref("S")), irgen.Map(irgen.S("int64"))} {
+		add(Field1(irgen.Nullable(t), true))
+		add(Field1(irgen.Nullable(t), false))
+	}
+	// a default declared on the non-null branch of a nullable scalar
+	for _, l := range []Term{irgen.S("string"), irgen.S("int64"), irgen.S("bool")} {
+		d := irgen.Nullable(l)
+		d.Default = "scalar@branch"
+		add(Field1(d, true))
+		add(Field1(d, false))
+		// ... and on the union itself (`T | null | *d` in CUE)
+		d.Default = "scalar"
+		add(Field1(d, true))
+		add(Field1(d, false))
+	}
 	// the same shape twice in one object with different requiredness (passes that
 	// name or cache generated types see a second occurrence), in both orders
 	for _, u := range append(scalarUnions(), discUnion(), irgen.Enum("str"), irgen.Struct1("g", true, irgen.S("string"))) {
